@@ -20,7 +20,10 @@ import (
 	"fmt"
 	"io/ioutil"
 	"os"
+	"os/exec"
+	"path/filepath"
 	"reflect"
+	"regexp"
 	"runtime"
 	"sort"
 	"strconv"
@@ -46,9 +49,10 @@ const (
 	c18ckGetx
 	c18ckSetx
 	c18ckCtlRead
+	c18ckScrub
 )
 
-var c18ckNames = []string{"?", "Open", "Close", "Write", "Read", "Size", "Delete", "Getxattr", "Setxattr", "CtlRead"}
+var c18ckNames = []string{"?", "Open", "Close", "Write", "Read", "Size", "Delete", "Getxattr", "Setxattr", "CtlRead", "Scrub"}
 
 const (
 	c18Create = iota + 1
@@ -60,11 +64,16 @@ const (
 	c18GCOld
 	c18GCGone
 	c18Check
+	c18Pack
+	c18Scrub
 )
 
-var c18opNames = []string{"?", "Create", "Write", "Read", "Stat", "SetVersion", "PullTract", "GCOld", "GCGone", "Check"}
+var c18opNames = []string{"?", "Create", "Write", "Read", "Stat", "SetVersion", "PullTract", "GCOld", "GCGone", "Check", "PackTracts", "Scrub"}
 
-func c18isReader(kind int) bool { return kind == c18Read || kind == c18Stat || kind == c18Check }
+func c18isReader(kind int) bool {
+	return kind == c18Read || kind == c18Stat || kind == c18Check || kind == c18Scrub
+}
+func c18isLong(kind int) bool { return kind == c18Pull || kind == c18Pack }
 
 const (
 	c18stNotStarted = 0
@@ -99,6 +108,12 @@ type c18op struct {
 	a3      int64
 	data    []byte
 	sources []c18src
+	pack    []c18packSrc // PackTracts: a1 = total length
+}
+
+type c18packSrc struct {
+	off, length int
+	froms       []c18src // replies of the From hosts, in order
 }
 
 func (o *c18op) wire() []int64 {
@@ -112,6 +127,17 @@ func (o *c18op) wire() []int64 {
 			x = append(x, int64(s.err), int64(len(s.data)))
 			for _, b := range s.data {
 				x = append(x, int64(b))
+			}
+		}
+	} else if o.kind == c18Pack {
+		x = append(x, int64(len(o.pack)))
+		for _, p := range o.pack {
+			x = append(x, int64(p.off), int64(p.length), int64(len(p.froms)))
+			for _, s := range p.froms {
+				x = append(x, int64(s.err), int64(len(s.data)))
+				for _, b := range s.data {
+					x = append(x, int64(b))
+				}
 			}
 		}
 	} else {
@@ -156,6 +182,7 @@ type c18handle struct {
 type c18env struct {
 	s    *Store
 	md   *MemDisk
+	dk   *c18disk
 	mu   sync.Mutex
 	thr  []*c18thr
 	by   map[int64]*c18thr
@@ -178,7 +205,16 @@ type c18disk struct {
 	e *c18env
 }
 
-func c18tid(k int) core.TractID { return core.TractID{Blob: 123456, Index: core.TractKey(k)} }
+// tract ids below 100 are ordinary tracts; ids >= 100 are RS chunk tracts (PackTracts destinations)
+const c18rsPartition = core.PartitionID(uint32(core.RSPartition)<<30 | 7)
+
+func c18chunk(k int) core.RSChunkID { return core.RSChunkID{Partition: c18rsPartition, ID: uint64(k)} }
+func c18tid(k int) core.TractID {
+	if k >= 100 {
+		return c18chunk(k).ToTractID()
+	}
+	return core.TractID{Blob: 123456, Index: core.TractKey(k)}
+}
 
 func (e *c18env) gate(kind int, id core.TractID) (core.Error, *c18thr) {
 	gid := c18goid()
@@ -333,6 +369,14 @@ func (d *c18disk) Delete(id core.TractID) core.Error {
 	return err
 }
 
+func (d *c18disk) Scrub(id core.TractID) (int64, core.Error) {
+	inj, _ := d.e.gate(c18ckScrub, id)
+	if inj != core.NoError {
+		return 0, inj
+	}
+	return d.MemDisk.Scrub(id)
+}
+
 func (d *c18disk) Getxattr(f interface{}, name string) ([]byte, core.Error) {
 	h := f.(*c18handle)
 	inj, _ := d.e.gate(c18ckGetx, h.id)
@@ -367,6 +411,17 @@ func (t *c18talker) CtlRead(ctx context.Context, addr string, id core.TractID, v
 	if th == nil {
 		return nil, core.ErrRPC
 	}
+	if strings.HasPrefix(addr, "p") { // PackTracts source i, host j
+		var i, j int
+		fmt.Sscanf(addr, "p%d_%d", &i, &j)
+		if i >= len(th.op.pack) || j >= len(th.op.pack[i].froms) {
+			return nil, core.ErrRPC
+		}
+		src := th.op.pack[i].froms[j]
+		b := make([]byte, len(src.data))
+		copy(b, src.data)
+		return b, src.err
+	}
 	k, _ := strconv.Atoi(strings.TrimPrefix(addr, "s"))
 	if k < 0 || k >= len(th.op.sources) {
 		return nil, core.ErrRPC
@@ -387,7 +442,8 @@ func c18newEnv(caseID string) *c18env {
 	cfg.ScrubRate = 0
 	e.md = NewMemDisk()
 	e.s = NewStore(&c18talker{e}, NewMetadataStore(), &cfg)
-	e.s.AddDisk(&c18disk{MemDisk: e.md, e: e})
+	e.dk = &c18disk{MemDisk: e.md, e: e}
+	e.s.AddDisk(e.dk)
 	// waiters of s.busyCond = notify.wait - notify.notify (sync.Cond internals; fails loudly if they change)
 	nl := reflect.ValueOf(&e.s.busyCond).Elem().FieldByName("notify")
 	e.waitAddr = (*uint32)(unsafe.Pointer(nl.FieldByName("wait").UnsafeAddr()))
@@ -498,6 +554,26 @@ func (e *c18env) runOp(th *c18thr) []int64 {
 	case c18Check:
 		m := e.s.Check([]core.TractState{{ID: id, Version: int(o.a1)}})
 		return []int64{int64(len(m))}
+	case c18Pack:
+		var specs []*core.PackTractSpec
+		for i, p := range o.pack {
+			sp := &core.PackTractSpec{ID: core.TractID{Blob: core.BlobIDFromParts(5, 77), Index: core.TractKey(i)}, Version: 1, Offset: p.off, Length: p.length}
+			for j := range p.froms {
+				sp.From = append(sp.From, core.TSAddr{ID: core.TractserverID(j + 1), Host: fmt.Sprintf("p%d_%d", i, j)})
+			}
+			specs = append(specs, sp)
+		}
+		return []int64{int64(e.s.PackTracts(ctx, int(o.a1), specs, c18chunk(o.tract)))}
+	case c18Scrub:
+		// one iteration of scrubDisk's inner loop (the loop itself sleeps 5 minutes first and never returns):
+		// tryLockTract(READ); d.Scrub; unlock; maybeReportError - transcribed, the callees are the real ones
+		if !e.s.tryLockTract(id, READ) {
+			return []int64{-1}
+		}
+		n, err := e.dk.Scrub(id)
+		e.s.unlock(id, READ)
+		e.s.maybeReportError(id, err)
+		return []int64{int64(err), n}
 	}
 	return []int64{-1}
 }
@@ -535,7 +611,7 @@ func (e *c18env) advance(th *c18thr, inj core.Error) bool {
 }
 
 // snapshot: nthreads, per thread (status [kind | nres res...]), nbusy (tract val)*, opens, closes
-func (e *c18env) snapshot(ntr int) []int64 {
+func (e *c18env) snapshot(ids []int) []int64 {
 	var l vw.L
 	e.mu.Lock()
 	l.AddInt(len(e.thr))
@@ -559,7 +635,7 @@ func (e *c18env) snapshot(ntr int) []int64 {
 		v int64
 	}
 	var bs []bv
-	for k := 0; k < ntr; k++ {
+	for _, k := range ids {
 		if v, ok := e.s.busy[c18tid(k)]; ok {
 			bs = append(bs, bv{k, int64(v)})
 		}
@@ -586,9 +662,9 @@ func (e *c18env) busyOf(tract int) (int32, bool) {
 }
 
 // scan: per tract inmap stampRel ondisk hasver ver ndata data...
-func (e *c18env) scan(ntr int) []int64 {
+func (e *c18env) scan(ids []int) []int64 {
 	var l vw.L
-	for k := 0; k < ntr; k++ {
+	for _, k := range ids {
 		id := c18tid(k)
 		e.s.lock.Lock()
 		td, ok := e.s.tracts[id]
@@ -659,6 +735,14 @@ type c18init struct {
 	present bool
 	version int
 	data    []byte
+	rs      bool // an RS chunk tract: id = 100 + position, version is always RSChunkVersion
+}
+
+func c18tractID(pos int, ti c18init) int {
+	if ti.rs {
+		return 100 + pos
+	}
+	return pos
 }
 
 type c18step struct {
@@ -714,11 +798,19 @@ func c18runCase(clean, known *vw.Trace, c *c18case) {
 	tr.Case(c.id)
 	e := c18newEnv(c.id)
 	defer e.close()
-	ntr := len(c.tracts)
-	// setup (free mode: the test goroutine is not registered, calls pass through)
+	var ids []int
 	for k, ti := range c.tracts {
+		ids = append(ids, c18tractID(k, ti))
+	}
+	sort.Ints(ids)
+	// setup (free mode: the test goroutine is not registered, calls pass through)
+	for pos, ti := range c.tracts {
 		if !ti.present {
 			continue
+		}
+		k := c18tractID(pos, ti)
+		if ti.rs {
+			ti.version = core.RSChunkVersion
 		}
 		id := c18tid(k)
 		err := e.s.Create(context.Background(), id, ti.data, 0)
@@ -785,7 +877,7 @@ func c18runCase(clean, known *vw.Trace, c *c18case) {
 			c18report(c, "harness-not-quiescent", "operations neither parked, finished nor waiting after 5s", map[string]interface{}{"ops": c18opsDesc(c)})
 			return
 		}
-		op.Add(e.snapshot(ntr)...)
+		op.Add(e.snapshot(ids)...)
 		tr.Op(op...)
 		tr.Obs(777, 1)
 		// monitor: fail fast against a long writer; busy only against a long writer
@@ -799,7 +891,13 @@ func c18runCase(clean, known *vw.Trace, c *c18case) {
 						"an operation stays blocked in busyCond.Wait although its tract is free (or held only by readers and it is a reader): a wake-up was lost",
 						map[string]interface{}{"ops": c18opsDesc(c), "step": stepNo})
 				}
-				if v, ok := bv, bok; ok && v == -2 {
+				longInside := false
+				for _, o := range e.thr {
+					if o != w && o.op.tract == w.op.tract && c18isLong(o.op.kind) && o.state == c18stParked {
+						longInside = true // parked before a Disk call / CtlRead = inside its section
+					}
+				}
+				if v, ok := bv, bok; (ok && v == -2) || longInside {
 					vw.Stat("mon.blocked-behind-long-writer", 1)
 					c18reportOnce(c, "blocked-behind-long-writer-op="+c18opNames[w.op.kind],
 						"an operation that meets a long-running copy-in (busy = -2) blocks instead of failing fast with ErrTooBusy",
@@ -816,7 +914,7 @@ func c18runCase(clean, known *vw.Trace, c *c18case) {
 			if len(d.result) > 0 && core.Error(d.result[0]) == core.ErrTooBusy && d.op.kind != c18Check {
 				long := false
 				for _, o := range e.thr {
-					if o != d && o.op.tract == d.op.tract && o.op.kind == c18Pull && o.state != c18stNotStarted && !doneBefore[o.idx] {
+					if o != d && o.op.tract == d.op.tract && c18isLong(o.op.kind) && o.state != c18stNotStarted && !doneBefore[o.idx] {
 						long = true
 					}
 				}
@@ -832,8 +930,9 @@ func c18runCase(clean, known *vw.Trace, c *c18case) {
 	// final scan + quiescence monitors
 	{
 		var op vw.L
-		op.AddInt(21, ntr)
-		op.Add(e.scan(ntr)...)
+		op.AddInt(21, len(ids))
+		op.AddInt(ids...)
+		op.Add(e.scan(ids)...)
 		tr.Op(op...)
 		tr.Obs(777, 1)
 	}
@@ -968,6 +1067,8 @@ func c18scenarios() []c18scenario {
 	ok := c18src{core.NoError, c18bytes(5, 6, 7)}
 	eof := c18src{core.ErrEOF, c18bytes(5)}
 	rpc := c18src{core.ErrRPC, nil}
+	rsabs := c18init{rs: true}
+	rspres := c18init{present: true, rs: true, data: c18bytes(4, 5, 6, 7)}
 	return []c18scenario{
 		{"create-absent", abs, c18op{kind: c18Create, a1: 0, data: d}},
 		{"create-absent-off", abs, c18op{kind: c18Create, a1: 2, data: d}},
@@ -1008,16 +1109,72 @@ func c18scenarios() []c18scenario {
 		{"check-ok", pres, c18op{kind: c18Check, a1: 2}},
 		{"check-old", pres, c18op{kind: c18Check, a1: 3}},
 		{"check-absent", abs, c18op{kind: c18Check, a1: 1}},
+		// scrub step
+		{"scrub-present", pres, c18op{kind: c18Scrub}},
+		{"scrub-absent", abs, c18op{kind: c18Scrub}},
+		// RS chunk tracts and PackTracts (a long writer on the destination chunk)
+		{"rs-create-absent", rsabs, c18op{kind: c18Create, a1: 0, data: d}},
+		{"rs-create-present", rspres, c18op{kind: c18Create, a1: 1, data: d}},
+		{"rs-read", rspres, c18op{kind: c18Read, a1: core.RSChunkVersion, a2: 2, a3: 0}},
+		{"rs-setversion", rspres, c18op{kind: c18SetVersion, a1: 2}},
+		{"pack-absent-1src", rsabs, c18op{kind: c18Pack, a1: 3, pack: []c18packSrc{{0, 3, []c18src{ok}}}}},
+		{"pack-present-1src-pad", rspres, c18op{kind: c18Pack, a1: 6, pack: []c18packSrc{{1, 3, []c18src{ok}}}}},
+		{"pack-2src-gap-pad", rsabs, c18op{kind: c18Pack, a1: 9, pack: []c18packSrc{{0, 3, []c18src{ok}}, {4, 1, []c18src{eof}}}}},
+		{"pack-host-fallback", rsabs, c18op{kind: c18Pack, a1: 3, pack: []c18packSrc{{0, 3, []c18src{rpc, eof, ok}}}}},
+		{"pack-all-hosts-fail", rspres, c18op{kind: c18Pack, a1: 4, pack: []c18packSrc{{0, 3, []c18src{ok}}, {3, 1, []c18src{rpc, rpc}}}}},
+		{"pack-wrong-length", rsabs, c18op{kind: c18Pack, a1: 5, pack: []c18packSrc{{0, 2, []c18src{ok}}, {2, 3, []c18src{ok}}}}},
+		{"pack-nosrc", rspres, c18op{kind: c18Pack, a1: 4}},
+		{"pack-bad-spec-overlap", rsabs, c18op{kind: c18Pack, a1: 9, pack: []c18packSrc{{0, 3, []c18src{ok}}, {2, 3, []c18src{ok}}}}},
+		{"pack-bad-spec-short", rsabs, c18op{kind: c18Pack, a1: 2, pack: []c18packSrc{{0, 3, []c18src{ok}}}}},
 	}
 }
 
 var c18injErrs = []core.Error{core.ErrIO, core.ErrCorruptData, core.ErrNoSuchTract, core.ErrAlreadyExists, core.ErrEOF, core.ErrNoAttribute}
 
 // ---------- random concurrent cases ----------
+func c18genPack(r *vw.Rng, tract int) c18op {
+	nsrc := r.PickInt(0, 1, 1, 2, 2, 3)
+	var ps []c18packSrc
+	pos := 0
+	for i := 0; i < nsrc; i++ {
+		pos += r.PickInt(0, 0, 1)
+		ln := r.Range(1, 3)
+		var fr []c18src
+		for j, n := 0, r.PickInt(1, 1, 2); j < n; j++ {
+			b := make([]byte, ln)
+			for x := range b {
+				b[x] = byte(r.Range(10, 250))
+			}
+			switch r.Intn(6) {
+			case 0:
+				fr = append(fr, c18src{core.ErrRPC, nil})
+			case 1:
+				fr = append(fr, c18src{core.NoError, b[:ln-1]}) // unexpected length
+			case 2:
+				fr = append(fr, c18src{core.ErrEOF, b})
+			default:
+				fr = append(fr, c18src{core.NoError, b})
+			}
+		}
+		ps = append(ps, c18packSrc{pos, ln, fr})
+		pos += ln
+	}
+	return c18op{kind: c18Pack, tract: tract, a1: int64(pos + r.PickInt(0, 0, 1, 2)), pack: ps}
+}
+
 func c18genOp(r *vw.Rng, tract int, init c18init) c18op {
 	v := init.version
 	if !init.present {
 		v = r.Range(1, 2)
+	}
+	if init.rs {
+		v = core.RSChunkVersion
+		if r.Chance(2, 5) {
+			return c18genPack(r, tract)
+		}
+	}
+	if r.Chance(1, 12) {
+		return c18op{kind: c18Scrub, tract: tract}
 	}
 	pickV := func() int64 { return int64(v + r.PickInt(0, 0, 0, 0, 1, -1)) }
 	data := func() []byte {
@@ -1094,7 +1251,9 @@ func TestVerifC18(t *testing.T) {
 					continue
 				}
 				calls := 0
-				c := &c18case{id: id, tracts: []c18init{sc.tract0}, ops: []c18op{sc.op}, class: "seq"}
+				sop := sc.op
+				sop.tract = c18tractID(0, sc.tract0)
+				c := &c18case{id: id, tracts: []c18init{sc.tract0}, ops: []c18op{sop}, class: "seq"}
 				c.choose = func(startable, parked []int, stepNo int, th []*c18thr) c18step {
 					if len(startable) > 0 {
 						return c18step{thread: 0, start: true}
@@ -1146,6 +1305,18 @@ func TestVerifC18(t *testing.T) {
 			// a long copy-in: everybody else fails fast, on the other tract nobody notices
 			{"pull-vs-all", []c18init{pres, pres},
 				[]c18op{{kind: c18Pull, tract: 0, a1: 3, sources: []c18src{{core.NoError, c18bytes(5, 6)}}}, {kind: c18Read, tract: 0, a1: 2, a2: 2}, {kind: c18Write, tract: 0, a1: 2, data: d}, {kind: c18Read, tract: 1, a1: 2, a2: 2}}, []int{3, 0, 1, 2}},
+			// PackTracts is a long writer on the destination chunk: readers, writers, bumps and the scrubber of
+			// the chunk fail fast (the scrubber skips), the other tract is untouched
+			{"pack-vs-all", []c18init{{present: true, rs: true, data: c18bytes(4, 5, 6)}, pres},
+				[]c18op{{kind: c18Pack, tract: 100, a1: 5, pack: []c18packSrc{{0, 2, []c18src{{core.ErrRPC, nil}, {core.NoError, c18bytes(8, 9)}}}, {2, 2, []c18src{{core.NoError, c18bytes(3, 3)}}}}},
+					{kind: c18Read, tract: 100, a1: core.RSChunkVersion, a2: 2}, {kind: c18Write, tract: 100, a1: core.RSChunkVersion, data: d},
+					{kind: c18Scrub, tract: 100}, {kind: c18SetVersion, tract: 100, a1: 2}, {kind: c18Stat, tract: 1, a1: 2}}, []int{5, 0, 1, 2, 3, 4}},
+			{"pack-behind-readers", []c18init{{present: true, rs: true, data: c18bytes(4, 5, 6)}},
+				[]c18op{{kind: c18Read, tract: 100, a1: core.RSChunkVersion, a2: 3}, {kind: c18Scrub, tract: 100},
+					{kind: c18Pack, tract: 100, a1: 3, pack: []c18packSrc{{0, 3, []c18src{{core.NoError, c18bytes(1, 1, 1)}}}}},
+					{kind: c18Read, tract: 100, a1: core.RSChunkVersion, a2: 3}}, []int{0, 1, 2, 3}},
+			{"scrub-vs-write", []c18init{pres},
+				[]c18op{{kind: c18Scrub, tract: 0}, {kind: c18Write, tract: 0, a1: 2, data: d}, {kind: c18Scrub, tract: 0}}, []int{0, 1, 2}},
 		}
 		for _, dc := range ds {
 			id := "dir-" + dc.name
@@ -1194,11 +1365,14 @@ func TestVerifC18(t *testing.T) {
 			} else {
 				c.tracts = append(c.tracts, c18init{})
 			}
+			if r.Chance(1, 4) {
+				c.tracts[k].rs = true
+			}
 		}
 		nops := r.PickInt(2, 2, 3, 3, 4)
 		for i := 0; i < nops; i++ {
 			k := r.Intn(ntr)
-			c.ops = append(c.ops, c18genOp(r, k, c.tracts[k]))
+			c.ops = append(c.ops, c18genOp(r, c18tractID(k, c.tracts[k]), c.tracts[k]))
 		}
 		faulty := r.Chance(1, 3)
 		c.choose = func(startable, parked []int, stepNo int, th []*c18thr) c18step {
@@ -1226,6 +1400,129 @@ func TestVerifC18(t *testing.T) {
 
 	// ---- part 3: Manager open-file accounting (F4) ----
 	c18managerPart(mtr, root)
+
+	// ---- part 4 (thorough tier only, search support): the concurrent mixes free-running under the race detector ----
+	if vw.Thorough() && os.Getenv("VERIF_CASES") == "" {
+		c18raceSupport()
+	}
+}
+
+// c18raceSupport re-runs `go test -race -run TestVerifC18Race` on the same tree with the same overlay and turns every
+// reported data race whose stack touches internal/tractserver code into a monitor violation data-race/<site>.
+func c18raceSupport() {
+	ov := filepath.Join(filepath.Dir(vw.OutDir()), "overlay.json")
+	repo := os.Getenv("VERIF_REPO")
+	if _, err := os.Stat(ov); err != nil || repo == "" {
+		vw.Stat("race.skipped-no-overlay", 1)
+		return
+	}
+	out := filepath.Join(vw.OutDir(), "race")
+	os.MkdirAll(out, 0o755)
+	cmd := exec.Command("go", "test", "-race", "-tags", "verif", "-overlay", ov, "-vet=off", "-count=1", "-timeout", "900s",
+		"-run", "TestVerifC18Race$", "./internal/tractserver/")
+	cmd.Dir = repo
+	cmd.Env = append(os.Environ(), "VERIF_OUT="+out, "VERIF_C18_RACE=1")
+	b, err := cmd.CombinedOutput()
+	txt := string(b)
+	if strings.Contains(txt, "-race is not supported") || strings.Contains(txt, "requires cgo") {
+		vw.Stat("race.detector-unavailable", 1)
+		return
+	}
+	vw.Stat("race.runs", 1)
+	blocks := strings.Split(txt, "WARNING: DATA RACE")
+	site := regexp.MustCompile(`internal/tractserver/([a-z_]+\.go):(\d+)`)
+	fn := regexp.MustCompile(`tractserver\.([A-Za-z0-9_().*]+)\(`)
+	for _, blk := range blocks[1:] {
+		if end := strings.Index(blk, "=================="); end >= 0 {
+			blk = blk[:end]
+		}
+		sig := ""
+		lines := strings.Split(blk, "\n")
+		for i, ln := range lines {
+			m := site.FindStringSubmatch(ln)
+			if m == nil || strings.HasPrefix(m[1], "zz_verif") {
+				continue
+			}
+			name := m[1]
+			if i > 0 {
+				if f := fn.FindStringSubmatch(lines[i-1]); f != nil {
+					name = f[1]
+				}
+			}
+			sig = "data-race/" + strings.NewReplacer("(*", "", ")", "", "(", "").Replace(name)
+			break
+		}
+		if sig == "" {
+			vw.Stat("race.outside-tractserver", 1)
+			continue
+		}
+		vw.Stat("mon.data-race", 1)
+		if len(blk) > 1800 {
+			blk = blk[:1800]
+		}
+		c18reportOnce(&c18case{id: "race"}, sig, "the race detector reported a data race in internal/tractserver code while operations ran concurrently",
+			map[string]interface{}{"report": blk})
+	}
+	if err != nil && len(blocks) == 1 && !strings.Contains(txt, "ok ") {
+		vw.Stat("race.child-failed", 1)
+		vw.Sample("race child: " + txt)
+	}
+}
+
+// TestVerifC18Race is the child of c18raceSupport: generated operation mixes on 1-2 tracts, every operation in its own
+// free-running goroutine (no parking), plus the quiescence monitors. Only meaningful under `go test -race`.
+func TestVerifC18Race(t *testing.T) {
+	if os.Getenv("VERIF_C18_RACE") == "" || !vw.Enabled() {
+		t.Skip("child of the C18 harness (thorough tier)")
+	}
+	root := vw.NewRng(vw.Seed() ^ 0x5eed)
+	n := 400
+	for ci := 0; ci < n; ci++ {
+		r := root.Fork(uint64(ci))
+		ntr := r.PickInt(1, 1, 2)
+		var tracts []c18init
+		for k := 0; k < ntr; k++ {
+			ti := c18init{present: r.Chance(3, 4), version: r.Range(1, 3), data: c18bytes(1, 2, 3), rs: r.Chance(1, 4)}
+			tracts = append(tracts, ti)
+		}
+		e := c18newEnv(fmt.Sprintf("race-%d", ci))
+		for pos, ti := range tracts {
+			if !ti.present {
+				continue
+			}
+			id := c18tid(c18tractID(pos, ti))
+			err := e.s.Create(context.Background(), id, ti.data, 0)
+			for v := 2; !ti.rs && err == core.NoError && v <= ti.version; v++ {
+				_, err = e.s.SetVersion(id, v, 0)
+			}
+		}
+		nops := r.Range(3, 8)
+		var wg sync.WaitGroup
+		for i := 0; i < nops; i++ {
+			k := r.Intn(ntr)
+			th := &c18thr{idx: i, op: c18genOp(r, c18tractID(k, tracts[k]), tracts[k])}
+			wg.Add(1)
+			go func() {
+				defer wg.Done()
+				e.runOp(th)
+			}()
+		}
+		done := make(chan struct{})
+		go func() { wg.Wait(); close(done) }()
+		select {
+		case <-done:
+		case <-time.After(20 * time.Second):
+			t.Errorf("race case %d: operations did not finish", ci)
+			return
+		}
+		e.s.busyLock.Lock()
+		nb := len(e.s.busy)
+		e.s.busyLock.Unlock()
+		if nb != 0 {
+			t.Errorf("race case %d: busy map not empty at quiescence", ci)
+		}
+		e.close()
+	}
 }
 
 // ---------- part 3: Manager ----------
